@@ -49,7 +49,7 @@ func profRep(variant int) *Profile {
 
 func TestC24(t *testing.T) {
 	run := ev.Start("C24")
-	nHist, nOps := run.Pick(8, 80), run.Pick(450, 1500)
+	nHist, nOps := run.Pick(8, 48), run.Pick(450, 1500)
 	clusters := map[string]bool{}
 	for h := 0; h < nHist; h++ {
 		var rm *RepMon
